@@ -1688,24 +1688,28 @@ def _value_atoms(fa: FA, st, e, at, vals):
     return {x[6:] for x in d if x.startswith("param:") and x[6:] in vals}
 
 
-def _is_member(fa: FA, st, node, name, at, vals) -> bool:
-    """Is `name` (at `node` in statement `st`) a member drawn from an argument value: the variable of a loop / comprehension
-    over a value-carrying parameter itself, its .values(), or the value half of its .items()?"""
+def _is_member(fa: FA, st, node, name, at, vals, kind_of) -> bool:
+    """Is `name` (at `node` in statement `st`) a part of an argument value: the variable of a loop / comprehension over a
+    value-carrying parameter, its .values() or the value half of its .items().  The keys of a parameter that is a mapping
+    from parameter names to values (kwargs, context arguments) are names, not values; the keys of a parameter that holds one
+    value and has been found to be a dict by a test on the path are part of that value.  `kind_of(parameter)` says which:
+    'value' (class tested on the path), 'sequence' / 'mapping' (by annotation), None."""
     def members_of(it, tgt):
         it = _strip_cast(it)
-        for w in ("list", "tuple", "sorted", "reversed", "iter"):
-            inner = _applied(it, (w,), None)
-            if inner is not None and isinstance(it.func, ast.Name):
-                it = inner
+        while isinstance(it, ast.Call) and isinstance(it.func, ast.Name) and it.func.id in ("list", "tuple", "sorted", "reversed", "iter") and it.args:
+            it = _strip_cast(it.args[0])
         if isinstance(it, ast.Call) and isinstance(it.func, ast.Name) and it.func.id == "enumerate" and it.args and isinstance(tgt, ast.Tuple) and len(tgt.elts) == 2:
             return members_of(it.args[0], tgt.elts[1])
         if isinstance(it, ast.Name) and it.id in vals:
-            return isinstance(tgt, ast.Name) and tgt.id == name
+            return isinstance(tgt, ast.Name) and tgt.id == name and kind_of(it.id) in ("value", "sequence")
         if isinstance(it, ast.Call) and isinstance(it.func, ast.Attribute) and isinstance(it.func.value, ast.Name) and it.func.value.id in vals and not it.args:
             if it.func.attr == "values":
                 return isinstance(tgt, ast.Name) and tgt.id == name
-            if it.func.attr == "items":
-                return isinstance(tgt, ast.Tuple) and len(tgt.elts) == 2 and isinstance(tgt.elts[1], ast.Name) and tgt.elts[1].id == name
+            if it.func.attr == "keys":
+                return isinstance(tgt, ast.Name) and tgt.id == name and kind_of(it.func.value.id) == "value"
+            if it.func.attr == "items" and isinstance(tgt, ast.Tuple) and len(tgt.elts) == 2:
+                return (isinstance(tgt.elts[1], ast.Name) and tgt.elts[1].id == name) or \
+                    (isinstance(tgt.elts[0], ast.Name) and tgt.elts[0].id == name and kind_of(it.func.value.id) == "value")
         return False
 
     pm = A.parent_map(st)
@@ -1784,10 +1788,10 @@ def _value_carriers(ck, modules):
                             ps = [p for p in tgt.params if p not in ("self", "cls")] if tgt.cls is not None and not _is_static(tgt) else list(tgt.params)
                             got = {}
                             for i, a in enumerate(c.args):
-                                if not isinstance(a, ast.Starred) and i < len(ps) and _value_atoms(fa, st, a, ids[0], vals):
+                                if not isinstance(a, ast.Starred) and i < len(ps) and _raw_value(fa, st, c, a, ids[0], vals, ck, sites):
                                     got[ps[i]] = a
                             for k in c.keywords:
-                                if k.arg in tgt.params and _value_atoms(fa, st, k.value, ids[0], vals):
+                                if k.arg in tgt.params and _raw_value(fa, st, c, k.value, ids[0], vals, ck, sites):
                                     got[k.arg] = k.value
                             have = out.get(tgt.qual)
                             for p_, a_ in got.items():
@@ -1832,6 +1836,48 @@ def _class_facts_at(fa: FA, st, node, name: str, ck, sites, depth=0) -> _Adm:
             outer = o if outer is None else outer.either(o)
         acc = acc.both(outer)
     return acc
+
+
+_SEQUENCES = {"list", "tuple", "set", "frozenset", "List", "Tuple", "Sequence", "Set", "FrozenSet", "Iterable", "Collection", "deque"}
+
+
+def _kind_there(fa: FA, st, node, param: str, ck, sites):
+    """'value': the parameter holds one argument value whose class a test on the path has established; else by its
+    annotation 'sequence' (of values) or 'mapping' (names -> values); None when nothing is known."""
+    adm = _class_facts_at(fa, st, node, param, ck, sites)
+    if adm.classes is not None:
+        return "value"
+    for a in fa.fi.node.args.posonlyargs + fa.fi.node.args.args + fa.fi.node.args.kwonlyargs:
+        if a.arg == param and a.annotation is not None:
+            ann = a.annotation
+            if isinstance(ann, ast.Constant) and isinstance(ann.value, str):
+                try:
+                    ann = ast.parse(ann.value, mode="eval").body
+                except SyntaxError:
+                    return None
+            while isinstance(ann, ast.Subscript) and (A.dotted(ann.value) or "").split(".")[-1] == "Optional":
+                ann = ann.slice
+            base = ann.value if isinstance(ann, ast.Subscript) else ann
+            last = (A.dotted(base) or "").split(".")[-1]
+            return "sequence" if last in _SEQUENCES else "mapping" if last in ("dict", "Dict", "Mapping", "OrderedDict", "MutableMapping") else None
+    return None
+
+
+def _raw_value(fa: FA, st, node, e, at, vals, ck, sites):
+    """The name under which `e` (inside `node` of statement `st`) is an argument value as it was passed - a value-carrying
+    parameter itself or a part drawn from one - else None (a rendering, a field, a class ... of it is not the value)."""
+    try:
+        x = _strip_cast(fa.expand(e, at))
+    except AnalysisError:
+        x = _strip_cast(e)
+    if not isinstance(x, ast.Name):
+        return None
+    if x.id in _binders(st, node):
+        return x.id if _is_member(fa, st, node, x.id, at, vals, lambda q: _kind_there(fa, st, node, q, ck, sites)) else None
+    ds = fa.df.reaching(at, x.id)
+    if x.id in vals and ds and all(d.kind == "param" for d in ds):
+        return x.id
+    return x.id if _is_member(fa, st, node, x.id, at, vals, lambda q: _kind_there(fa, st, node, q, ck, sites)) else None
 
 
 def _is_static(fi) -> bool:
@@ -1912,9 +1958,7 @@ def check_values_not_looked_up_by_equality(ck, R, modules=("serialization", "ref
                             todo += [x.body, x.orelse]
                         elif isinstance(x, ast.BoolOp):
                             todo += x.values
-                        elif isinstance(x, ast.Name) and x.id in vals and fa.df.reaching(at, x.id) and all(d.kind == "param" for d in fa.df.reaching(at, x.id)):
-                            leaves.append(x.id)
-                        elif isinstance(x, ast.Name) and _is_member(fa, st, n, x.id, at, vals):
+                        elif isinstance(x, ast.Name) and _raw_value(fa, st, n, x, at, vals, ck, sites):
                             leaves.append(x.id)
                     for p in sorted(set(leaves)):
                         n_sites += 1
